@@ -189,6 +189,9 @@ def _getlines_exempt(f: Func, bounds: "Bounds", s: ast.Subscript) -> str:
             for a in ([q.test] if not isinstance(q.test, ast.BoolOp) else q.test.values):
                 while isinstance(a, ast.BoolOp):
                     a = a.values[0]
+                if isinstance(a, ast.Compare) and len(a.ops) == 1 and isinstance(a.ops[0], ast.Gt):
+                    # B > i, the same test written the other way round
+                    a = ast.Compare(left=a.comparators[0], ops=[ast.Lt()], comparators=[a.left])
                 if isinstance(a, ast.Compare) and len(a.ops) == 1 and isinstance(a.ops[0], ast.Lt) and isinstance(a.left, ast.Name) \
                         and a.left.id == idx and isinstance(a.comparators[0], ast.Name):
                     B = a.comparators[0].id
